@@ -1,12 +1,36 @@
-"""C09: see props/cluster.py (one recorded trace family, this property's own formulas in Trace_Cluster.tla)."""
-from props import cluster
+"""C09: see props/cluster.py (one recorded trace family, this property's own formulas in Trace_Cluster.tla); plus the deciding
+function of the leader's choice, GetLatestBlockFromViewChangeMessages, tabulated on vote lists in every order (Trace_Extractor.tla)."""
+import json, shutil
+import vlib
+from props import cluster, tables
 
 PID = "C09"
 
 
+def _classify(line, tags):
+    views = [v["pv"] for v in line["votes"]]
+    return ({"op": "extract", "tags": tags},
+            "block extractor on votes with proof views %s / blocks %s returned %s: %s" % (views, [v["x"] for v in line["votes"]], line["res"], ",".join(tags)))
+
+
+def _extractor(rep, tier, seed, replay_in=None):
+    tables.run_table(rep, PID, "extractor", ["-seed", seed, "-rand", 2000 if tier == "quick" else 60000], "Trace_Extractor", "Trace_Extractor.cfg",
+                     _classify, replay_in=replay_in)
+
+
 def run(tier, seed):
-    return cluster.simple_check(PID, tier, seed)
+    return cluster.simple_check(PID, tier, seed, extra=_extractor)
 
 
 def replay(path, seed):
+    payload = json.load(open(path))
+    if payload.get("kind") == "extractor-line":
+        rep = vlib.Report(PID, "quick", seed)
+        rep.replay_of = path
+        wd = vlib.scratch_dir("c09r")
+        try:
+            _extractor(rep, "quick", seed, replay_in=tables.replay_line(payload, wd))
+        finally:
+            shutil.rmtree(wd, ignore_errors=True)
+        return rep.finish()
     return cluster.simple_replay(PID, path, seed)
